@@ -1,4 +1,5 @@
-import Proofs.SelectGreedy
+import Proofs.SelectAggregate
+import Props.C19
 
 /-!
 # C20 — Ensemble selection and prediction are well-formed and order-stable
@@ -150,6 +151,118 @@ theorem C20_order {α : Type} (submitted gathered : List (Nat × α))
   intro a b ha hb h1 h2
   exact eq_of_id_eq hs (hperm.subset ha) hb (Nat.le_antisymm h1 h2)
 
+/-! ### the starting-ensemble hypothesis discharged through C19; `predict` end to end; verified checkers -/
+
+open DH.Aggregate in
+/-- `MeanAggregator` has the two symmetries (from `C19_weight_scale_invariant`, `C19_perm`) -/
+def meanSym : SymAgg Cell MeanOut :=
+  ⟨meanAgg, fun k hk ws xs => (C19_weight_scale_invariant k hk ws).1 xs, fun h => C19_perm.1 _ _ h⟩
+
+theorem zip_fst_snd {α β : Type} (xs : List (α × β)) : (xs.map (·.1)).zip (xs.map (·.2)) = xs := by
+  induction xs with
+  | nil => rfl
+  | cons x xs ih => simp [ih]
+
+open DH.Aggregate in
+/-- `MixedNormalAggregator` on members given as (loc, scale) pairs (`C19_perm_normal`) -/
+def normalSym : SymAgg (Cell × Cell) NormalOut :=
+  ⟨fun ws xs => mixedNormal ws (xs.map (·.1)) (xs.map (·.2)),
+   fun k hk ws xs => (C19_weight_scale_invariant k hk ws).2.1 _ _,
+   fun {ws ws' xs xs'} h => C19_perm_normal (by simp) (by simp) (by rw [zip_fst_snd, zip_fst_snd]; exact h)⟩
+
+open DH.Aggregate in
+/-- `MixedCategoricalAggregator` (either uncertainty statistic `u`) and `ModeAggregator` -/
+def catSym (u : List Rat → Option Rat) (c : Nat) : SymAgg Row CatOut :=
+  ⟨catAgg u c, fun k hk ws xs => (C19_weight_scale_invariant k hk ws).2.2.1 u c xs,
+   fun h => C19_perm.2.1 u c _ _ h⟩
+
+open DH.Aggregate in
+def modeSym (c : Nat) : SymAgg Row ModeOut :=
+  ⟨modeAgg c, fun k hk ws xs => (C19_weight_scale_invariant k hk ws).2.2.2 c xs, fun h => C19_perm.2.2 c _ _ h⟩
+
+/-- **`C20_greedy_no_worse` without the hypothesis on the starting ensemble**, for every aggregator
+with the C19 symmetries (`meanSym`, `normalSym`, `catSym`, `modeSym` — the four aggregators of the
+library), every prediction table `pred` (candidate × cell, masked or not), every loss function of the
+aggregated prediction: with early stopping the loss of the returned ensemble (unique members, weights
+counts/total) is `≤` the loss of the starting ensemble (aggregated without weights, as the code does). -/
+theorem C20_greedy_no_worse_agg {X Out : Type} (A : SymAgg X Out) (pred : Nat → Nat → X) (m : Nat)
+    (loss : List Out → Rat) (o : Opts) {n : Nat} {losses : Nat → Rat} {order : List Nat}
+    (h : OrderOK n losses order) (hk : 0 < o.kInit) (bags : Nat → List Nat) (fuel : Nat)
+    (hes : o.earlyStopping = true) (heps : 0 ≤ o.epsTol) {sel : List Nat}
+    (hr : greedy o n order (lossNone A pred m loss) (lossCounts A pred m loss) bags fuel = .ok sel) :
+    lossCounts A pred m loss (uniqueCounts n sel) ≤ lossNone A pred m loss (initSel o order) := by
+  by_cases hn : 0 < n
+  · have hw := init_wf h o hn hk
+    have hnd : (initSel o order).Nodup := (List.take_sublist _ _).nodup h.nodup
+    exact C20_greedy_no_worse o n order _ _ bags fuel hes heps
+      (le_of_eq (lossCounts_init A pred m loss hnd hw.valid hw.nonempty)) hr
+  · -- no candidate: the starting ensemble is empty and `select` raises
+    have hn0 : n = 0 := by omega
+    have hlen := h.length
+    rw [hn0] at hlen
+    have : initSel o order = [] := by simp [initSel, List.length_eq_zero_iff.1 hlen]
+    simp [greedy, this] at hr
+
+open DH.Aggregate in
+/-- the four instances, spelled out -/
+theorem C20_greedy_no_worse_four (o : Opts) {n : Nat} {losses : Nat → Rat} {order : List Nat}
+    (h : OrderOK n losses order) (hk : 0 < o.kInit) (bags : Nat → List Nat) (fuel m : Nat)
+    (hes : o.earlyStopping = true) (heps : 0 ≤ o.epsTol) (sel : List Nat) :
+    (∀ pred loss, greedy o n order (lossNone meanSym pred m loss) (lossCounts meanSym pred m loss) bags fuel = .ok sel →
+      lossCounts meanSym pred m loss (uniqueCounts n sel) ≤ lossNone meanSym pred m loss (initSel o order)) ∧
+    (∀ pred loss, greedy o n order (lossNone normalSym pred m loss) (lossCounts normalSym pred m loss) bags fuel = .ok sel →
+      lossCounts normalSym pred m loss (uniqueCounts n sel) ≤ lossNone normalSym pred m loss (initSel o order)) ∧
+    (∀ u c pred loss, greedy o n order (lossNone (catSym u c) pred m loss) (lossCounts (catSym u c) pred m loss) bags fuel = .ok sel →
+      lossCounts (catSym u c) pred m loss (uniqueCounts n sel) ≤ lossNone (catSym u c) pred m loss (initSel o order)) ∧
+    (∀ c pred loss, greedy o n order (lossNone (modeSym c) pred m loss) (lossCounts (modeSym c) pred m loss) bags fuel = .ok sel →
+      lossCounts (modeSym c) pred m loss (uniqueCounts n sel) ≤ lossNone (modeSym c) pred m loss (initSel o order)) :=
+  ⟨fun pred loss hr => C20_greedy_no_worse_agg meanSym pred m loss o h hk bags fuel hes heps hr,
+   fun pred loss hr => C20_greedy_no_worse_agg normalSym pred m loss o h hk bags fuel hes heps hr,
+   fun u c pred loss hr => C20_greedy_no_worse_agg (catSym u c) pred m loss o h hk bags fuel hes heps hr,
+   fun c pred loss hr => C20_greedy_no_worse_agg (modeSym c) pred m loss o h hk bags fuel hes heps hr⟩
+
+/-- **`EnsemblePredictor.predict` does not depend on the completion order** (nor on the order in which
+the members are listed with their weights): the members' jobs are submitted with increasing ids,
+gathered in any order, sorted by id (`C20_order`) and aggregated with the ensemble's weights; the
+result is the aggregation of the members' predictions in member order, and listing the members —
+together with their weights — in another order gives the same prediction (`C19_perm`). -/
+theorem C20_predict_order_invariant {X Out : Type} (A : SymAgg X Out) (ws : List Rat)
+    (submitted gathered gathered' : List (Nat × X))
+    (hs : submitted.Pairwise (fun a b => a.1 < b.1))
+    (hp : gathered.Perm submitted) (hp' : gathered'.Perm submitted) :
+    predictModel A ws gathered = A.agg ws (submitted.map (·.2)) ∧
+    predictModel A ws gathered = predictModel A ws gathered' ∧
+    (∀ (ws' : List Rat) (submitted' : List (Nat × X)),
+      (ws'.zip (submitted'.map (·.2))).Perm (ws.zip (submitted.map (·.2))) →
+      submitted'.Pairwise (fun a b => a.1 < b.1) → ∀ g, g.Perm submitted' →
+      predictModel A ws' g = predictModel A ws gathered) := by
+  have e1 : predictModel A ws gathered = A.agg ws (submitted.map (·.2)) := by
+    unfold predictModel; rw [C20_order submitted gathered hs hp]
+  have e2 : predictModel A ws gathered' = A.agg ws (submitted.map (·.2)) := by
+    unfold predictModel; rw [C20_order submitted gathered' hs hp']
+  refine ⟨e1, by rw [e1, e2], ?_⟩
+  intro ws' submitted' hperm hs' g hg
+  unfold predictModel at *
+  rw [C20_order submitted' g hs' hg, e1]
+  exact A.perm hperm
+
+/-- **verified checkers** (run by the driver on the real selectors' outputs): each decides exactly its
+clause of the property, and the model's outputs pass them -/
+theorem C20_checker (losses : List Rat) (k : Nat) (idx : List Nat) (ws : List Rat) (tol : Rat) (n bound : Nat) :
+    (checkTopK losses k idx ws = true ↔ TopKSpec losses.length (fun i => losses.getD i 0) k idx ws) ∧
+    (checkGreedyOut tol n bound idx ws = true ↔ GreedyOutSpec tol n bound idx ws) :=
+  ⟨checkTopK_iff losses k idx ws, checkGreedyOut_iff tol n bound idx ws⟩
+
+theorem C20_checker_model_passes :
+    (∀ (losses : List Rat) (order : List Nat) (k : Nat), OrderOK losses.length (fun i => losses.getD i 0) order →
+      checkTopK losses k (topK order k).1 (topK order k).2 = true) ∧
+    (∀ (tol : Rat) (n bound : Nat) (sel : List Nat), 0 ≤ tol → WF n bound sel →
+      checkGreedyOut tol n bound (output n sel).1 (output n sel).2 = true) := by
+  refine ⟨fun losses order k h => (checkTopK_iff _ _ _ _).2 (topK_spec h k), fun tol n bound sel ht hw => ?_⟩
+  obtain ⟨h1, h2, h3, h4, h5, h6, h7⟩ := output_wf hw
+  exact (checkGreedyOut_iff _ _ _ _ _).2 ⟨h1, fun i hi => (h2 i hi).1, h3, h4, h5, h6,
+    by rw [h7]; linarith, by rw [h7]; linarith⟩
+
 /-! ### non-vacuity and regression witnesses -/
 
 def oDefault : Opts :=
@@ -176,5 +289,13 @@ example : greedy { oDefault with kInit := 1, k := 3, maxIt := 2, earlyStopping :
 example : output 2 [0, 1, 0] = ([0, 1], [2 / 3, 1 / 3]) := by decide +kernel
 example : sortById [(2, "c"), (0, "a"), (10, "k"), (1, "b")] = [(0, "a"), (1, "b"), (2, "c"), (10, "k")] := by
   decide +kernel
+
+example : checkTopK [3, 1, 2] 2 [1, 2] [1, 1] = true := by decide +kernel
+example : checkTopK [3, 1, 2] 2 [1, 0] [1, 1] = false := by decide +kernel
+example : checkGreedyOut 0 2 3 [0, 1] [2 / 3, 1 / 3] = true := by decide +kernel
+example : checkGreedyOut 0 2 3 [0, 0] [1 / 2, 1 / 2] = false := by decide +kernel
+open DH.Aggregate in
+example : predictModel meanSym [1, 2, 4] [(2, some 5), (0, some 1), (1, some 3)]
+    = meanSym.agg [1, 2, 4] [some 1, some 3, some 5] := by decide +kernel
 
 end DH.Select
